@@ -201,6 +201,7 @@ func RunCrash(cfg CrashCfg, t *Trace, seg int) int {
 	type contPt struct {
 		p    int
 		lost map[int]bool
+		pend bool // the recovered image holds a live file whose truncation is still to be completed
 	}
 	var contPts []contPt
 	stride := cfg.Stride
@@ -244,7 +245,15 @@ func RunCrash(cfg CrashCfg, t *Trace, seg int) int {
 			}
 			seen[key] = cp
 			order = append(order, cp)
-			contPts = append(contPts, contPt{p, lost})
+			pend := false
+			if snap != nil {
+				for _, in := range snap.Inodes {
+					if in.Kind == 1 && in.Ssz > (in.Size+4095)/4096 {
+						pend = true
+					}
+				}
+			}
+			contPts = append(contPts, contPt{p, lost, pend})
 		}
 	}
 	for _, w := range WalStream(events, p0) {
@@ -297,6 +306,17 @@ func RunCrash(cfg CrashCfg, t *Trace, seg int) int {
 	// continuation: crash, recover, keep serving
 	for k := 0; k < cfg.Cont && len(contPts) > 0; k++ {
 		c := contPts[r.Intn(len(contPts))]
+		if k == 0 { // the first continuation starts, when there is one, from an image in which a live file is still being cut
+			var pp []contPt
+			for _, x := range contPts {
+				if x.pend {
+					pp = append(pp, x)
+				}
+			}
+			if len(pp) > 0 {
+				c = pp[r.Intn(len(pp))]
+			}
+		}
 		img := vdisk.CrashImage(base, events, c.p, c.lost)
 		s2, err := Start(img, cfg.Unstable)
 		if err != nil {
